@@ -173,6 +173,8 @@ def check(ctx):
     okw = len(lp) == 1 and norm(lp[0].test) == 'len(elem_data) > 0'
     bd = [norm(s) for s in lp[0].body] if lp else []
     okw = okw and bd == ["eid, elen = struct.unpack('BB', elem_data[:2])", "self.elements[self.element_mapping[eid]] = elem_data[2:2 + elen].decode('ISO-8859-1')", 'elem_data = elem_data[2 + elen:]']
+    if not okw and len(lp) == 1:
+        okw = tlv_by_offset(par, lp[0])
     ctx.inst('R3', par, 'tlv-walk', okw, 'TLV walk: (id, len) from 2 bytes, value of len bytes, advance 2 + len; body %s' % bd)
     ctx.inst('R3', par, 'tlv-area', 'elem_data = %s[2:-1]' % d in [norm(s) for s in walk_own(par.node) if isinstance(s, ast.Assign)], 'TLVs lie between the 2-byte (version, length) prefix and the CRC')
     wl = [l for l in walk_own(ow_w.node) if isinstance(l, ast.For)]
@@ -414,6 +416,73 @@ def check(ctx):
         cnt = [s for s in walk_own(f.node) if isinstance(s, ast.Assign) and norm_nc(s.value) == '%s[0]' % f.params[1]]
         ok = len(lp) == 1 and len(cnt) == 1 and norm(lp[0].iter) == 'range(%s)' % norm(cnt[0].targets[0]) and [norm_nc(s) for s in lp[0].body] == ['%s.append(%s[1 + %s])' % (lst, f.params[1], norm(lp[0].target))]
         ctx.inst('R7', f, 'id-list-parse', ok, 'ids = data[1 .. count] with count = data[0]')
+
+
+def tlv_by_offset(par, loop):
+    """the same walk with a running offset over the unchanged buffer:  p = 0; while p < len(E): id, n = unpack('BB', E[p:p + 2]);
+    value = E[p + 2:p + 2 + n]; p = p + 2 + n  (locals on the way are read through; offsets compared as linear forms)"""
+    import copy as _copy
+    from ..symexpr import canon as _canon
+    sc = Scope.of(par)
+    t = loop.test
+    if not (isinstance(t, ast.Compare) and len(t.ops) == 1 and isinstance(t.ops[0], ast.Lt) and isinstance(t.left, ast.Name) and
+            isinstance(t.comparators[0], ast.Call) and norm(t.comparators[0].func) == 'len' and len(t.comparators[0].args) == 1 and isinstance(t.comparators[0].args[0], ast.Name)):
+        return False
+    pos, buf = t.left.id, t.comparators[0].args[0].id
+    init = [s_ for s_ in walk_own(par.node) if isinstance(s_, ast.Assign) and norm(s_.targets[0]) == pos and s_.lineno < loop.lineno]
+    if not init or fold_in(par, init[-1].value) != 0:
+        return False
+    if any(isinstance(n, ast.Name) and n.id == buf and isinstance(n.ctx, ast.Store) for n in ast.walk(loop)):
+        return False
+    env = {}
+
+    class Sub(ast.NodeTransformer):
+        def visit_Name(self, n):
+            if isinstance(n.ctx, ast.Load) and n.id in env:
+                return _copy.deepcopy(env[n.id])
+            return n
+
+    def sub(e):
+        return Sub().visit(_copy.deepcopy(e))
+
+    def lin(e):
+        return _canon(sub(e), sc)
+    P = ast.Name(id=pos, ctx=ast.Load())
+    head = value = None
+    for st in loop.body:
+        if isinstance(st, ast.Assign) and len(st.targets) == 1 and isinstance(st.targets[0], ast.Tuple) and isinstance(st.value, ast.Call) and norm(st.value.func) == 'struct.unpack':
+            if head is not None or fold_in(par, st.value.args[0]) != 'BB' or len(st.targets[0].elts) != 2 or not all(isinstance(e, ast.Name) for e in st.targets[0].elts):
+                return False
+            sl = st.value.args[1]
+            if not (isinstance(sl, ast.Subscript) and norm(sl.value) == buf and isinstance(sl.slice, ast.Slice) and sl.slice.lower is not None and sl.slice.upper is not None and
+                    lin(sl.slice.lower) == _canon(P, sc) and lin(sl.slice.upper) == _canon(ast.parse('%s + 2' % pos, mode='eval').body, sc)):
+                return False
+            head = (st.targets[0].elts[0].id, st.targets[0].elts[1].id)
+        elif isinstance(st, ast.Assign) and len(st.targets) == 1 and isinstance(st.targets[0], ast.Name):
+            if st.targets[0].id in (head or ()):
+                return False
+            env[st.targets[0].id] = sub(st.value)
+        elif isinstance(st, ast.Assign) and len(st.targets) == 1 and norm(st.targets[0]) == 'self.elements[self.element_mapping[%s]]' % (head[0] if head else '?'):
+            v = st.value
+            if not (isinstance(v, ast.Call) and isinstance(v.func, ast.Attribute) and v.func.attr == 'decode' and [norm(a) for a in v.args] == ["'ISO-8859-1'"] and
+                    isinstance(v.func.value, ast.Subscript) and norm(v.func.value.value) == buf and isinstance(v.func.value.slice, ast.Slice)):
+                return False
+            sl = v.func.value.slice
+            if sl.lower is None or sl.upper is None:
+                return False
+            # positions are relative to the offset the record started at: pos may already have been advanced by now
+            start = env.get(pos)
+            base = '%s' % pos
+            want_lo = _canon(ast.parse('%s + 2' % base, mode='eval').body, sc)
+            want_hi = _canon(ast.parse('%s + 2 + %s' % (base, head[1]), mode='eval').body, sc)
+            if lin(sl.lower) != want_lo or lin(sl.upper) != want_hi:
+                return False
+            value = True
+        else:
+            return False
+    if head is None or not value or pos not in env:
+        return False
+    return _canon(env[pos], sc) == _canon(ast.parse('%s + 2 + %s' % (pos, head[1]), mode='eval').body, sc)
 
 
 VARIANTS = [
